@@ -849,6 +849,9 @@ def _next_permutation_anatomy(col, crate):
                 v_swap.append(False)
                 continue
             i_t, j_t = a_[1][2], b_[1][2]
+        # swapping is symmetric: `data.swap(j, i - 1)` is the same exchange
+        if not (i_t[0] == "bin" and i_t[1] == "Sub" and i_t[3] == mk_int(1)) and (j_t[0] == "bin" and j_t[1] == "Sub" and j_t[3] == mk_int(1)):
+            i_t, j_t = j_t, i_t
         # the partner may be written in the frame of the tail: i + k for the scan variable k
         off_frame = None
         if j_t[0] == "bin" and j_t[1] == "Add" and j_t[3][0] == "phi" and j_t[2][0] in ("elem", "proj"):
